@@ -129,7 +129,7 @@ if any(abs(a - b) > 1e-12 * (1 + abs(b)) for a, b in zip(got + [0] * (len(want) 
 
 def run(ctx, timeout):
     mods = pmap(_mods, [0], procs=1)[0]
-    res = pmap(check_module, [(m, timeout) for m in mods], chunk=1)
+    res = pmap(check_module, [(m, timeout) for m in mods], chunk=1, hard_s=240 if timeout <= 10000 else None)
     for rl in res:
         if isinstance(rl, dict):
             ctx.harness_errors.append(rl.get("error", "")[-300:])
